@@ -560,6 +560,8 @@ def run_concrete(h, vals):
 
 def replay(h, vals):
     """concrete replay with the concrete oracle. returns (reproduced: bool, info)"""
+    if hasattr(h, "custom_replay"):
+        return h.custom_replay(vals)
     try:
         inp, out = run_concrete(h, vals)
     except PreconditionFailed:
